@@ -10,6 +10,12 @@ M = [
   "while ((shared + 1 < min_length) && (ubuf_value(b->last_key, shared) == key[shared]))"),
  ("m41-restart-points-always-32bit", ["C11"], "mtbl/block.c",
   "\tif (bi->restarts > UINT32_MAX)\n\t\treturn (mtbl_fixed_decode64(bi->data + bi->restarts + idx * sizeof(uint64_t)));", "\tif (bi->restarts > UINT32_MAX && idx == 0)\n\t\treturn (mtbl_fixed_decode64(bi->data + bi->restarts + idx * sizeof(uint64_t)));"),
+ ("m42-reader-ignores-mmap-failure", ["C18"], "mtbl/reader.c",
+  "\tif (r->data == MAP_FAILED) {\n\t\tfree(r);\n\t\treturn (NULL);\n\t}", "\tif (r->data == NULL) {\n\t\tfree(r);\n\t\treturn (NULL);\n\t}"),
+ ("m43-reader-leaks-on-mmap-failure", ["C18"], "mtbl/reader.c",
+  "\tif (r->data == MAP_FAILED) {\n\t\tfree(r);\n\t\treturn (NULL);\n\t}", "\tif (r->data == MAP_FAILED)\n\t\treturn (NULL);"),
+ ("m44-source-free-callback-skipped", ["C04", "C18"], "mtbl/source.c",
+  "\t\tif ((*s)->source_free != NULL)\n\t\t\t(*s)->source_free((*s)->clos);", "\t\tif ((*s)->source_free != NULL && (*s)->clos == NULL)\n\t\t\t(*s)->source_free((*s)->clos);"),
  ("m02-decode-entry-fastpath-le128", ["C01"], "mtbl/block.c",
   "if ((*shared | *non_shared | *value_length) < 128) {", "if ((*shared | *non_shared | *value_length) <= 128) {"),
  ("m05-prefix-predicate-lt", ["C02"], "mtbl/reader.c",
